@@ -480,7 +480,7 @@ pub fn run(args: &Args) -> i32 {
         return EXIT_VIOLATION;
     }
     let mut ev = Evidence::new();
-    let sessions = args.tier.pick(15_000u64, 600_000);
+    let sessions = args.tier.pick(200_000u64, 6_000_000);
     for p in parallel(args.jobs, sessions, Evidence::new, |n, ev| run_timing_session(seed, n, ev)) {
         ev.merge(p);
     }
@@ -529,9 +529,9 @@ pub fn run(args: &Args) -> i32 {
         ],
         exhaustive: Some(false),
         floors: vec![
-            ("requests".into(), args.tier.pick(60_000, 2_000_000)),
-            ("timeouts_checked_against_deadline".into(), args.tier.pick(10_000, 400_000)),
-            ("in_time_replies_accepted".into(), args.tier.pick(10_000, 400_000)),
+            ("requests".into(), args.tier.pick(1_000_000, 30_000_000)),
+            ("timeouts_checked_against_deadline".into(), args.tier.pick(200_000, 5_000_000)),
+            ("in_time_replies_accepted".into(), args.tier.pick(200_000, 5_000_000)),
             ("limit_sequences".into(), args.tier.pick(1_500, 25_000)),
         ],
         min_classes: 40,
